@@ -20,6 +20,44 @@ package lnwire
 //@   loop * havoc
 //@   ensures result == nil && len(c.Timestamps) != 0 ==> len(c.Timestamps) == len(c.ShortChanIDs)
 //@
+//@ func (c ShortChannelID) ToUint64
+//@   inline
+//@
+//@ func decodeCompressedShortChanIDs
+//@   props C10
+//@   loop 0 invariant len(shortChanIDs) <= 100000
+//@   site call append: assert len(shortChanIDs) < 100000 &&
+//@        (len(shortChanIDs) > 0 ==> cid.ToUint64() > lastChanID.ToUint64())
+//@   ensures result1 == nil ==> len(result0) <= 100000
+//@   nopanic
+//@
+//@ func decodeShortChanIDs
+//@   props C10
+//@   loop 0 invariant 0 <= i && i <= numShortChanIDs && len(shortChanIDs) == numShortChanIDs
+//@   loop 0 step i == prev(i) + 1 && lastChanID.ToUint64() == shortChanIDs[prev(i)].ToUint64() &&
+//@        (prev(i) > 0 ==> shortChanIDs[prev(i)].ToUint64() > prev(lastChanID).ToUint64())
+//@   site make nth 0: assert arg(len) <= 65535
+//@   site make nth 1: assert arg(len) <= 8191
+//@   ensures result2 == nil ==> len(result1) <= 100000
+//@   nopanic
+//@
+//@ func DecodeFailure
+//@   props C10
+//@   site make nth 0: assert 0 <= arg(len) && arg(len) <= 65535
+//@   site call CopyN: assert arg(1) == r && 0 <= arg(2) && arg(2) <= 65535
+//@   site call DecodeFailureMessage: assert padLength + failureLength >= 256 && retn(Read, 1) == io.EOF
+//@   nowrap
+//@   nopanic
+//@
+//@ func EncodeFailure
+//@   props C10
+//@   site make: assert 0 <= arg(len) && arg(len) + len(failureMessage) == 256
+//@   site call WriteUint16 nth 0: assert arg(1) == len(failureMessage)
+//@   site call WriteBytes nth 0: assert arg(1) == failureMessage
+//@   site call WriteUint16 nth 1: assert arg(1) == 256 - len(failureMessage)
+//@   nowrap
+//@   nopanic
+//@
 //@ extern func (b *bytes.Buffer) Len
 //@   ensures 0 <= result && result <= 1 << 40
 //@
@@ -45,3 +83,14 @@ package lnwire
 //@   props C10
 //@   ensures result1 == nil ==> ret(Len, 1) - ret(Len, 0) - retn(Write, 0) <= 65533 && result0 == ret(Len, 2) - ret(Len, 0)
 //@   site call Encode: assert arg(1) == buf && retn(Write, 1) == nil
+//@
+//@ func ReadElement
+//@   props C10
+//@   loop * havoc
+//@   site make: assert 0 <= arg(len) && arg(len) <= 65535
+//@
+//@ func ReadMessage
+//@   props C10
+//@   ensures result1 == nil ==> retn(ReadFull, 1) == nil && retn(makeEmptyMessage, 1) == nil && ret(Decode) == nil &&
+//@           result0 == retn(makeEmptyMessage, 0)
+//@   site call Decode: assert arg(1) == r && arg(2) == pver
